@@ -45,5 +45,23 @@ def main():
     return 0
 
 
+def fp_case(path, repo_root):
+    """a bounded-float obligation: re-run the recorded case (data set, dtype, 2**k scaling) natively"""
+    import json
+    sys.path.insert(0, os.path.dirname(os.path.abspath(__file__)))
+    import c20_fp
+    rec = json.load(open(path))
+    cm = rec.get("counter_model") or {}
+    only = {k: cm[k] for k in ("data", "dtype", "exponent") if k in cm} or None
+    out = c20_fp.run(repo_root, "thorough", only)
+    if out["fails"]:
+        print(f"REPRODUCED: {out['fails']}")
+        return 1
+    print(f"NOT-REPRODUCED: {out['runs']} native floating-point runs behave")
+    return 0
+
+
 if __name__ == "__main__":
+    if len(sys.argv) > 1 and os.path.exists(sys.argv[1]) and "/fp/" in open(sys.argv[1]).read(3000):
+        sys.exit(fp_case(sys.argv[1], os.path.realpath(sys.argv[2]) if len(sys.argv) > 2 else os.getcwd()))
     sys.exit(main())
